@@ -11,8 +11,16 @@ EXPLANATION = (
     "acc±step with acc) because f32 absorbs the step once |acc| >= 2^24*step — times reach 2^31 ms; f64 additive "
     "loops are accepted under the stated magnitude bound; multiplicative shrink loops are accepted when the start "
     "value provably comes from an integer (finite). R2: RefCount guard discipline (a get_mut while a guard of the "
-    "same pointee type may be live panics in the default build). All other panic/hang corners (integer overflow, "
+    "same pointee type may be live panics in the default build). R3: the mania column search `find_available_column(col, None, &[prev_pattern])` "
+    "asserts that a column outside `prev_pattern` exists; with the whole column range and that single exclusion set this is exactly "
+    "`prev_pattern.column_with_objs() < total_columns`, which must be an established fact at the call. All other panic/hang corners (integer overflow, "
     "index arithmetic, empty windows, PRNG column search) are numeric and NOT decided.")
+
+
+def _int_derived(v):
+    if v[0] == 'cast' and v[1] == 'IntToFloat':
+        return True
+    return v[0] == 'call' and v[1].get('name') == 'from' and bool(re.search(r'From<[iu]\d+> for f(32|64)', v[1].get('path') or ''))
 
 
 def init_is_finite(fn, L, acc_key):
@@ -31,11 +39,17 @@ def init_is_finite(fn, L, acc_key):
         return False, 'no definition outside the loop'
     for v in vals:
         v = prov.strip(v, names=prov.TRANSPARENT_NAMES - {'from', 'into'})
-        ok = False
-        if v[0] == 'cast' and v[1] == 'IntToFloat':
-            ok = True
-        elif v[0] == 'call' and v[1].get('name') == 'from' and re.search(r'From<[iu]\d+> for f(32|64)', v[1].get('path') or ''):
-            ok = True
+        ok = _int_derived(v)
+        if not ok and v[0] == 'param' and not fn.is_pub:
+            # a private helper: the start value is finite if every call site hands over an integer conversion
+            F = fn.facts
+            sites = F.callers().get(fn.path, []) if F is not None else []
+            if sites:
+                ok = True
+                for cfn, cbb, ct in sites:
+                    args = prov.prov_of(cfn).call_args(cbb)
+                    if v[1] > len(args) or not _int_derived(prov.strip(args[v[1] - 1], names=prov.TRANSPARENT_NAMES - {'from', 'into'})):
+                        ok = False
         if not ok:
             return False, 'start value `%s` is not an integer conversion' % prov.show(v, maxdepth=3)
     return True, 'start value converted from an integer (finite)'
@@ -116,8 +130,60 @@ def run(ctx):
     ctx.floor('C05-R2', nw, 13, 'RefCount::get_mut sites')
     ctx.floor('C05-R2', nsites, 90, 'RefCount::get/get_mut sites')
     guardrule.controls(ctx, fx, 'C05-R2')
+    r3_free_column(ctx, F)
     ctx.assume('all times come through the decoder bound 2^31 and a clock rate >= 0.01, so |t| <= 2.2e11 (f64 ulp <= 3.1e-5); '
                'every f64 step in the accepted loops is >= 1e-4')
     ctx.assume('RefCell permits nested shared borrows (read under read)')
     ctx.not_decided('integer overflow / truncation, usize underflow, empty windows, assert!(has_valid_column) and the PRNG column '
                     'search, iteration budgets, memory budgets')
+
+
+# ---- R3: precondition of the asserted column search
+def r3_free_column(ctx, F):
+    import arms
+    n = 0
+    for fn in F.fns:
+        if 'mania::convert::pattern_generator' not in fn.path:
+            continue
+        P = None
+        for bi, t in fn.calls():
+            if t['func'].get('name') != 'find_available_column' or not t['func'].get('local'):
+                continue
+            P = P or prov.prov_of(fn)
+            args = P.call_args(bi)
+            # (self, column, lower?, [upper?], patterns): whole range = every Option argument is None; patterns = the last argument
+            opts = [prov.strip(a, names=set()) for a in args[2:-1]]
+            if not opts or not all(o[0] == 'agg' and o[3] == 'None' for o in opts):
+                continue
+            pats = prov.strip(args[-1], names=set())
+            if pats[0] != 'agg' or pats[1] != 'array':
+                continue
+            items = list(pats[-1].values()) if isinstance(pats[-1], dict) else list(pats[-1])
+            if len(items) != 1:
+                continue
+            el = prov.strip(items[0], through_mut=True)
+            while el[0] == 'mut':
+                el = el[1]
+            if not (el[0] == 'field' and el[2] == 'prev_pattern'):
+                continue
+            ctx.saw(fn)
+            n += 1
+            ok = False
+            for c, lab in arms.bool_facts(fn, bi):
+                c = prov.strip(c, names={'likely', 'unlikely'})
+                if c[0] != 'binop':
+                    continue
+                l_is = any(x[0] == 'call' and x[1].get('name') == 'column_with_objs' for x in prov.walk(c[2], limit=20))
+                r_is = any(x[0] == 'call' and x[1].get('name') == 'column_with_objs' for x in prov.walk(c[3], limit=20))
+                tot_l = any(x[0] == 'field' and x[2] == 'total_columns' for x in prov.walk(c[2], limit=20))
+                tot_r = any(x[0] == 'field' and x[2] == 'total_columns' for x in prov.walk(c[3], limit=20))
+                if (c[1] == 'Lt' and l_is and tot_r and lab == 'true') or (c[1] == 'Gt' and tot_l and r_is and lab == 'true') or \
+                        (c[1] == 'Ge' and l_is and tot_r and lab == 'false') or (c[1] == 'Le' and tot_l and r_is and lab == 'false') or \
+                        (c[1] == 'Ne' and ((l_is and tot_r) or (tot_l and r_is)) and lab == 'true') or (c[1] == 'Eq' and ((l_is and tot_r) or (tot_l and r_is)) and lab == 'false'):
+                    ok = True
+            ctx.require(ok, 'C05-R3', '%s:free-column' % fn.path.split('pattern_generator::')[-1],
+                        '%s: find_available_column(.., &[prev_pattern]) only where prev_pattern.column_with_objs() < total_columns is established' % fn.path, fn.where(t.get('ln')),
+                        bad='%s searches for a column outside prev_pattern over the whole column range without `prev_pattern.column_with_objs() < total_columns` being '
+                            'established on that path: when the previous pattern occupies every column (low key counts) the search has no valid column and '
+                            '`assert!(has_valid_column)` panics during conversion' % fn.path)
+    ctx.floor('C05-R3', n, 1, 'whole-range column searches excluding only prev_pattern (3 today; one if the prologues share a helper)')
